@@ -1,0 +1,113 @@
+//go:build verif
+
+package tls
+
+import (
+	"errors"
+
+	"github.com/refraction-networking/utls/internal/hpke"
+)
+
+// Exports for the C14/C15 checks (certificate verification plan, ECH). Read-only accessors and
+// wrappers around unexported pure functions; no existing line changes.
+
+// VerifECHInner returns the client's current inner ClientHello of an ECH handshake in its
+// uncompressed form (marshalMsg(false) of echCtx.innerHello), the config's maximum_name_length,
+// and the outer extension order handed to the inner encoder (nil on the crypto/tls path, which
+// does not reorder). ok is false when there is no ECH context or no inner hello yet.
+func VerifECHInner(u *UConn) (innerRaw []byte, maxNameLen int, outerExts []uint16, reorder bool, ok bool) {
+	if u == nil || u.echCtx == nil || u.echCtx.innerHello == nil || u.echCtx.config == nil {
+		return nil, 0, nil, false, false
+	}
+	raw, err := u.echCtx.innerHello.marshalMsg(false)
+	if err != nil {
+		return nil, 0, nil, false, false
+	}
+	if u.clientHelloBuildStatus == BuildByUtls {
+		outerExts = u.extensionsList()
+		reorder = true
+	}
+	return raw, int(u.echCtx.config.MaxNameLength), outerExts, reorder, true
+}
+
+// VerifEncodeInner runs encodeInnerClientHelloReorderOuterExts on the hello parsed from innerRaw.
+// reorder=false passes a nil outer list (the crypto/tls path).
+func VerifEncodeInner(innerRaw []byte, maxNameLen int, outerExts []uint16, reorder bool) ([]byte, error) {
+	m := &clientHelloMsg{}
+	if !m.unmarshal(innerRaw) {
+		return nil, errors.New("verif: inner hello does not parse")
+	}
+	if !reorder {
+		outerExts = nil
+	} else if outerExts == nil {
+		outerExts = []uint16{}
+	}
+	return encodeInnerClientHelloReorderOuterExts(m, maxNameLen, outerExts)
+}
+
+// VerifDecodeInner runs the server's decodeInnerClientHello on a raw outer ClientHello (handshake
+// message incl. 4-byte header) and an EncodedClientHelloInner; returns the reconstructed inner
+// ClientHello message bytes.
+func VerifDecodeInner(outerRaw, encoded []byte) ([]byte, error) {
+	outer := &clientHelloMsg{}
+	if !outer.unmarshal(outerRaw) {
+		return nil, errors.New("verif: outer hello does not parse")
+	}
+	inner, err := decodeInnerClientHello(outer, encoded)
+	if err != nil {
+		return nil, err
+	}
+	return inner.original, nil
+}
+
+// VerifECHOpen decrypts, with the given ECH key, the ECH payloads of the recorded outer
+// ClientHellos of one connection (first hello, then the one after a HelloRetryRequest, which
+// reuses the HPKE context) and returns each EncodedClientHelloInner.
+func VerifECHOpen(config, priv []byte, hellos [][]byte) ([][]byte, error) {
+	var ctx *hpke.Receipient
+	var out [][]byte
+	for i, raw := range hellos {
+		outer := &clientHelloMsg{}
+		if !outer.unmarshal(raw) {
+			return out, errors.New("verif: outer hello does not parse")
+		}
+		echType, cs, _, encap, payload, err := parseECHExt(outer.encryptedClientHello)
+		if err != nil {
+			return out, err
+		}
+		if echType != outerECHExt {
+			return out, errors.New("verif: not an outer ECH extension")
+		}
+		if i == 0 {
+			_, cfg, err := parseECHConfig(config)
+			if err != nil {
+				return out, err
+			}
+			sk, err := hpke.ParseHPKEPrivateKey(cfg.KemID, priv)
+			if err != nil {
+				return out, err
+			}
+			info := append([]byte("tls ech\x00"), config...)
+			ctx, err = hpke.SetupReceipient(cfg.KemID, cs.KDFID, cs.AEADID, sk, info, encap)
+			if err != nil {
+				return out, err
+			}
+		}
+		pt, err := decryptECHPayload(ctx, raw, payload)
+		if err != nil {
+			return out, err
+		}
+		out = append(out, pt)
+	}
+	return out, nil
+}
+
+// VerifInnerCanon returns marshalMsg(false) of the hello parsed from raw: the uncompressed
+// marshalling of the struct the inner encoder works from.
+func VerifInnerCanon(raw []byte) ([]byte, error) {
+	m := &clientHelloMsg{}
+	if !m.unmarshal(raw) {
+		return nil, errors.New("verif: hello does not parse")
+	}
+	return m.marshalMsg(false)
+}
